@@ -3,3 +3,18 @@ NOT_APPLICABLE = {}
 add('C01', 'reference-model oracle over generated executions of the real parser',
     'Exploration: thousands of seeded random interface files are parsed by the real Module.parseString; the projection of the real tree (kinds, names, namespace paths from parent links, every type with qualifiers at every depth, template lists, defaults, bases, flags, per-kind order) must equal the generator model.',
     'Trusts the harness model/renderer of the DOCS.md dialect; constructs outside it are not generated; held = on the executions observed only.', 'DESIGN.md 4/C01')
+add('C02', 'reference-model oracle + icontract post-condition on the real instantiate_type',
+    'Exploration: template-heavy seeded modules are instantiated by the real instantiate_namespace; every type spelling of every instantiated member (arguments, returns, properties, operators, bases) is compared with an independent capture-free substitution on the generator model; an icontract post-condition on helpers.instantiate_type redoes the substitution on the real Type objects on every call and checks that the input object is not modified.',
+    'Trusts vlib/ref_inst.py as the statement of the property; flagged constructs that hit known defects are exercised only by witness probes (known_findings.json).', 'DESIGN.md 4/C02')
+add('C03', 'reference-model oracle over extracted binding inventory of generated code',
+    'Exploration: seeded models x option sets (top namespace, ignore list, serialization) go through the real PybindWrapper.wrap_file; the emitted module is scanned by an independent bracket-aware extractor and the multiset of bindings (kind, submodule, Python name, arity) must equal the inventory computed from the model; a statement-order scan checks that each submodule variable is defined once and before use.',
+    'Trusts vlib/ref_pybind.py naming rules (as stated in the property) and the extractor; order between entities is not constrained.', 'DESIGN.md 4/C03')
+add('C08', 'reference-model oracle + icontract post-condition on the real instantiate_name',
+    'Exploration: the complete per-namespace content list produced by the real instantiate_namespace (count, product order, names, C++ spellings, typedef instantiations exactly once, pass-through declarations in order) is compared with the reference expansion of the generator model; instantiate_name is monitored by a contract on every call.',
+    'Typedef instantiation position inside its namespace is not constrained; lists with clashing instantiated names are a user error and not generated.', 'DESIGN.md 4/C08')
+add('C12', 'metamorphic oracle (canonical vs hostile re-layouts) on parser and both generators',
+    'Exploration: every model is rendered canonically and in K hostile layouts (whitespace/CRLF/tabs/block and line comments with hostile bodies between any adjacent tokens); projection of the real parse tree, bytes of PybindWrapper.wrap_file and the file tree written by MatlabWrapper.wrap must be identical; a token-pair x gap-class coverage table is reported.',
+    'Atomic lexemes (default text, unsigned char, enum class, include header, std:: before pair) are not split; see known findings.', 'DESIGN.md 4/C12')
+add('C19', 'deterministic step-counter monitor on pyparsing rule applications over scaled input families',
+    'Exploration of growth: rule applications (not wall-clock) of the real Module.parseString for families ns/tt/base/inst/tdef/mix/wide at depths up to 12 (quick) / 32 (thorough) and file sizes up to 80 / 640 declarations must satisfy s(2d)<=6 s(d), s(2n)<=2.6 s(n), an absolute cap, and a per-token bound on random modules.',
+    'Bounded restatement of an asymptotic claim; decided over the explored range only.', 'DESIGN.md 4/C19')
